@@ -73,7 +73,7 @@ func c01Adapter(viaBolt bool) *vc01.Adapter {
 	return a
 }
 
-const c01Rule = "every case = one reference frame (vref.BoltFrame.Encode) followed by a second small frame in one read buffer: Decode, consumption == frame length, GetHeader/GetData/SetData(same)/SetRequestId(new)/Encode as xStream.endStream does; bytes must equal the reference encoding with only the id replaced; scribble=true additionally overwrites the whole read buffer after Decode. mode v1 = bolt v1 frames handed to the boltv2 codec (delegation). distinct = distinct (mode,dir,kind,lengths,shape,ids,field,value)"
+const c01Rule = "every case = one reference frame (vref.BoltFrame.Encode) followed by a second small frame in one read buffer: Decode, consumption == frame length, GetHeader/GetData/SetData(same)/SetRequestId(new)/Encode as xStream.endStream does — three times on the same frame object with the same data buffer object (first try + two retries; ids new, old, new), after which the data buffer must still read the same; bytes must equal the reference encoding with only the id replaced; scribble=true additionally overwrites the whole read buffer after Decode. mode v1 = bolt v1 frames handed to the boltv2 codec (delegation). distinct = distinct (mode,dir,kind,lengths,shape,ids,field,value)"
 
 func TestVerifC01Boltv2Fidelity(t *testing.T) {
 	p := vreport.Begin("C01", "boltv2-fidelity", time.Duration(vreport.Pick(60, 900))*time.Second)
@@ -105,5 +105,5 @@ func TestVerifC01Boltv2Modify(t *testing.T) {
 		func(yield func(vc01.Case) bool) { vc01.BoltModCases("boltv2", true, modes, yield) },
 		func(p *vreport.Part, c vc01.Case) { vc01.CheckMod(p, a, c) })
 	p.End(complete, "modes {boltv2 frames, bolt v1 frames at the boltv2 codec} x dirs x class {0,1,256 | thorough: all} x header shapes with distinct keys x content {0,1,256,65536 | thorough: all} x 13 modifications",
-		"modification applied through HeaderMap.Set/Del, SetData, (Class field + a header write); Encode must return an error or bytes that the reference parser AND a fresh Decode read back as exactly the modified class/headers/body, unmodified fixed fields, consistent lengths; an error is accepted only for content that does not fit the 16-bit class/header-block fields")
+		"modification applied through HeaderMap.Set/Del, SetData, (Class field + a header write); then three upstream attempts (SetData(same buffer object), SetRequestId, Encode): the first Encode must return an error or, like each later one, bytes that the reference parser AND a fresh Decode read back as exactly the modified class/headers/body, unmodified fixed fields, consistent lengths; an error is accepted only for content that does not fit the 16-bit class/header-block fields")
 }
